@@ -103,7 +103,8 @@ def effective_reaction_desc(rdesc, config):
     if config["alignment"] != "axisangle":
         return rdesc
     rdesc = copy.deepcopy(rdesc)
-    budget = 2 if rdesc["n"] <= 3 else 1  # number of final states that may keep spin 1
+    # number of final states that may keep spin 1
+    budget = config.get("axisangle_spin1_budget", 2 if rdesc["n"] <= 3 else 1)
     for fd in rdesc["final"]:
         fd["s2"] = fd["s2"] % 2 + (2 if fd["s2"] >= 2 else 0)  # spin <= 1 (3/2 -> 1/2 ... )
         if fd["s2"] >= 2:
